@@ -420,6 +420,66 @@ def noise_case(draw):
     return {'text': text}
 
 
+RECOMBINE_POOL = [
+    'SELECT i, s FROM #m WHERE i > 0 ORDER BY s DESC',
+    'SELECT s, count(*) AS n, sum(i) FROM #m GROUP BY s HAVING count(*) > 1 ORDER BY n',
+    'SELECT t, i + j AS k FROM b OPEN ON 2020-01-01 CLOSE ON 2020-06-01 CLEAR',
+    'SELECT DISTINCT s FROM #m WHERE s ~ "a" LIMIT 3',
+    'SELECT s, t, sum(d) AS x FROM #m GROUP BY 1, 2 PIVOT BY 1, 2',
+    'SELECT uid FROM #u WHERE w IN (SELECT i FROM #m) ORDER BY 1',
+    'SELECT * FROM (SELECT i AS a, s AS b FROM #m) WHERE a > 1',
+    'SELECT i FROM #m WHERE i = %s ORDER BY i',
+    'SELECT length(s) AS l, first(t) FROM #m GROUP BY l ORDER BY 2 DESC, l',
+    'BALANCES AT cost FROM b CLOSE',
+    "JOURNAL 's' AT units FROM OPEN ON 2020-01-01",
+    'PRINT FROM i > 0',
+]
+
+
+def recombine_cases():
+    return st.fixed_dictionaries({
+        'a': st.integers(0, len(RECOMBINE_POOL) - 1), 'b': st.integers(0, len(RECOMBINE_POOL) - 1),
+        'take': st.lists(st.sampled_from(['targets', 'from_clause', 'where_clause', 'group_by', 'order_by', 'pivot_by', 'limit', 'distinct',
+                                          'having', 'close', 'summary_func']), min_size=1, max_size=4, unique=True)})
+
+
+def prop_recombine(sh, case):
+    """Statement ASTs assembled from the clauses of two parsed statements (the way the shell and the
+    BALANCES/JOURNAL expansion build statements): accepted or rejected with a ProgrammingError, nothing else."""
+    import copy
+    from beanquery.parser import ast as A
+    fails = []
+    conn = connection()
+    a = conn.parse(RECOMBINE_POOL[case['a']])
+    b = conn.parse(RECOMBINE_POOL[case['b']])
+    new = copy.copy(a)
+    for field in case['take']:
+        try:
+            if field == 'having':
+                if getattr(new, 'group_by', None) is not None and getattr(b, 'group_by', None) is not None:
+                    new.group_by = A.GroupBy(new.group_by.columns, b.group_by.having)
+            elif field == 'close':
+                if isinstance(getattr(new, 'from_clause', None), A.From):
+                    new.from_clause = A.From(new.from_clause.expression, new.from_clause.open,
+                                             getattr(getattr(b, 'from_clause', None), 'close', True), new.from_clause.clear)
+            elif hasattr(new, field) and hasattr(b, field):
+                setattr(new, field, getattr(b, field))
+        except Exception:  # noqa: BLE001 - frozen field: leave as is
+            pass
+    for params in (None, [1]):
+        outcome, exc = attempt(conn, new, params)
+        if outcome == 'raised' and not (isinstance(exc, TypeError) and 'query parameters should be' in str(exc)):
+            fails.append((root_cause(exc, exc_sig(exc, 'recombine')), f"{RECOMBINE_POOL[case['a']]!r} + {case['take']} of {RECOMBINE_POOL[case['b']]!r}: {exc!r}"))
+            break
+        if outcome == 'rejected':
+            for p in location_problems(exc, ''):
+                fails.append(('recombine:location', f'{case!r}: {p}'))
+    sh.count(f'recombine:{outcome}')
+    sh.record(jsonio.case_hash(case), case['a'] != case['b'], {'base': RECOMBINE_POOL[case['a']], 'take': case['take'], 'from': RECOMBINE_POOL[case['b']], 'outcome': outcome}
+              if case['a'] != case['b'] and len(sh.samples) < 8 else None)
+    return fails
+
+
 def prop_reparam(sh, case):
     """Parameters are validated on every compilation of a parsed statement, not only the first."""
     fails = []
@@ -450,7 +510,7 @@ def prop_reparam(sh, case):
     return fails
 
 
-PARTS = {'rules': prop_rules, 'valid': prop_valid, 'noise': prop_noise, 'reparam': prop_reparam}
+PARTS = {'rules': prop_rules, 'valid': prop_valid, 'noise': prop_noise, 'reparam': prop_reparam, 'recombine': prop_recombine}
 
 
 def run(sh):
@@ -462,3 +522,4 @@ def run(sh):
             sh.fail(sig, detail, None, 'reparam')
     sh.search('valid', valid_case(), prop_valid, quick=4000, thorough=100000)
     sh.search('noise', noise_case(), prop_noise, quick=2400, thorough=80000)
+    sh.search('recombine', recombine_cases(), prop_recombine, quick=1600, thorough=40000)
